@@ -41,8 +41,15 @@ class DC:
     when: datetime
 
 
+def _spec(tag, *a):
+    """a typed value, written so that it survives the JSON round trip of a replay file unchanged"""
+    return {"__spec": tag, "a": list(a)}
+
+
 def _rand_value(rng, depth=0):
     kinds = ["int", "bigint", "float", "str", "unicode", "bool", "none", "date", "datetime", "time", "timedelta", "dc", "pyd"]
+    if depth == 0 and rng.random() < 0.04:
+        return _spec("big", rng.choice([70_000, 300_000]))  # larger than one AMQP frame / several TCP segments
     if depth < 3:
         kinds += ["list", "dict", "dict"]
     k = rng.choice(kinds)
@@ -61,18 +68,18 @@ def _rand_value(rng, depth=0):
     if k == "none":
         return None
     if k == "date":
-        return ("date", rng.randint(1, 9999), rng.randint(1, 12), rng.randint(1, 28))
+        return _spec("date", rng.randint(1, 9999), rng.randint(1, 12), rng.randint(1, 28))
     if k == "datetime":
-        return ("datetime", rng.randint(1, 9999), rng.randint(1, 12), rng.randint(1, 28), rng.randint(0, 23), rng.randint(0, 59),
+        return _spec("datetime", rng.randint(1, 9999), rng.randint(1, 12), rng.randint(1, 28), rng.randint(0, 23), rng.randint(0, 59),
                 rng.randint(0, 59), rng.randint(0, 999999), rng.choice([None, 0, 330, -480]))
     if k == "time":
-        return ("time", rng.randint(0, 23), rng.randint(0, 59), rng.randint(0, 59), rng.randint(0, 999999))
+        return _spec("time", rng.randint(0, 23), rng.randint(0, 59), rng.randint(0, 59), rng.randint(0, 999999))
     if k == "timedelta":
-        return ("timedelta", rng.randint(-36500, 36500), rng.randint(0, 86399), rng.randint(0, 999999))
+        return _spec("timedelta", rng.randint(-36500, 36500), rng.randint(0, 86399), rng.randint(0, 999999))
     if k == "dc":
-        return ("dc", rng.randint(0, 99), "s" + str(rng.randint(0, 9)), rng.randint(1, 9999))
+        return _spec("dc", rng.randint(0, 99), "s" + str(rng.randint(0, 9)), rng.randint(1, 9999))
     if k == "pyd":
-        return ("pyd", rng.randint(0, 99), rng.choice(["x", "ü"]))
+        return _spec("pyd", rng.randint(0, 99), rng.choice(["x", "ü"]))
     if k == "list":
         return [_rand_value(rng, depth + 1) for _ in range(rng.randint(0, 4))]
     return {rng.choice(["k", "key-1", "ключ", "", "a b"]) + str(i): _rand_value(rng, depth + 1) for i in range(rng.randint(0, 4))}
@@ -86,8 +93,11 @@ def _materialise(v):
         n: int
         s: str
 
-    if isinstance(v, tuple):
+    if isinstance(v, dict) and "__spec" in v:
+        v = [v["__spec"]] + list(v["a"])
         t = v[0]
+        if t == "big":
+            return "é" * v[1]
         if t == "date":
             return date(v[1], v[2], v[3])
         if t == "datetime":
